@@ -149,6 +149,6 @@ def jobs(tier):
         nm = func[3:] + ('.peek' if P.get('peek') else '')
         out.append(dict(id=nm + '.busy.noretry', func=func, params=dict(N=2, busy=1, **P), tags=['C14', 'C08'], functions=FUNCS[func], weight=2, must_reach=['timeout_raised']))
         out.append(dict(id=nm + '.busy.retry', func=func, params=dict(N=2, busy=1, retry=True, **P), tags=['C14'], functions=FUNCS[func], weight=10, must_reach=['lock_busy'], all_clauses=True))
-        out.append(dict(id=nm + '.fault', func=func, params=dict(N=2, fault=True, **P), tags=['C08'], functions=FUNCS[func], weight=20))
+        out.append(dict(id=nm + '.fault', func=func, params=dict(N=2, fault=True, **P), tags=['C08'], functions=FUNCS[func], weight=20, only_tags=['C08', 'FAULT']))
         out.append(dict(id=nm + '.kill', func=func, params=dict(N=2, crash=True, **P), tags=['C07'], functions=FUNCS[func], weight=40, must_reach=['crashed']))
     return out
